@@ -97,7 +97,27 @@ def figure_lifecycle(ctx, rule='C20-R2'):
         ctx.saw(f)
         if 'show' not in f.params:
             raise AnalysisError(rule, f'{q} has no `show` parameter any more')
-        evs = fx.own_events(q)
+        evs = list(fx.own_events(q))
+        # saving / showing / closing moved into a private function of the plot module (`_wrap_up(adp, stem, fmts, show)`):
+        # its statements are read in place of the call, its parameters replaced by what is passed
+        from dataclasses import replace as _replace
+        expanded = []
+        for e in evs:
+            head = call_head(e) or ''
+            hf = p.funcs.get(head)
+            if e.kind == 'call' and hf is not None and hf.module.name.startswith('ampycloud.plots') and \
+                    hf.name.startswith('_') and not hf.name.startswith('__') and head in fx.summ and tag(e.call) == 'call':
+                bound = fx._bind(hf, e.call[2], e.call[3])
+                mapping = {('p', k): v for k, v in bound.items()}
+                for he in fx.own_events(head):
+                    if he.kind == 'return':
+                        continue                    # (leaves the helper, not the plotting function)
+                    expanded.append(_replace(he, guard=T.mk_and([e.guard, T.subst(he.guard, mapping)]),
+                                             call=T.subst(he.call, mapping) if he.call is not None else None,
+                                             seq=e.seq, loops=tuple(e.loops) + tuple(he.loops)))
+            else:
+                expanded.append(e)
+        evs = expanded
         closes = [e for e in evs if e.kind == 'call' and closer_pred(call_head(e) or '')]
         notshow = T.mk_not(('p', 'show'))
         good = [e for e in closes if set(guard_literals(e.guard)) <= {notshow} and not e.loops]
